@@ -7,7 +7,7 @@ ALL = ["C%02d" % i for i in range(1, 21)]
 CHECKS = {
  "C01": dict(
   level="exploration", design="§5 C01", engine="detsim",
-  technique="deterministic simulation of N real ConsensusState objects (verif hooks) under a seeded adversarial scheduler with Byzantine validators; online trace oracle over emission/delivery/commit logs",
+  technique="deterministic simulation of N real ConsensusState objects (verif hooks) under a seeded adversarial scheduler with Byzantine validators; online trace oracle over emission/delivery/commit logs; threaded lane C01T (real goroutines, in-memory network) under the Go race detector",
   text="Each case is one adversarial schedule (delivery order, loss, duplication, armed and stale timeouts, catch-up gossip, Byzantine equivocation / conflicting proposals / selective delivery with <1/3 power) over 4-7 real consensus state machines with real key files. "
        "The oracle keeps its own vote/lock bookkeeping and checks agreement of CommitBlock calls, an independent >2/3 tally of every seen-commit and the three voting-discipline rules. Held on the schedules explored only; liveness is not claimed.",
   note="trusted: the 250-line trace oracle, the light application (accepts any block extending its head), consensus/verif_hooks.go (synchronous entry points, no behaviour change). The wall-clock 'recover' mode is not triggered."),
@@ -28,6 +28,47 @@ CHECKS = {
   technique="differential monitoring of the real ValidatorSet / updateStatus / fault-evidence code against a one-step big.Int reference, path-composition comparison, exact fairness windows",
   text="Random validator sets (incl. extreme powers): IncrementAccum(n) vs all compositions of n, single step vs saturating reference, exact weighted-round-robin fairness over windows, identity/copy/aliasing, add/update/remove histories vs a map model, ApplyBlock's validator update and VerifyFaultValEvidence call sites. Held on the sets explored.",
   note="library level plus ApplyBlock at height 1; round skipping inside enterNewRound is exercised by C01's simulator (same IncrementAccum). One genuine defect found and fixed (known_findings.txt)."),
+ "C04": dict(
+  level="fault_enumeration", design="§5 C04", engine="core",
+  technique="release-set history oracle over the real FilePV with crash points enumerated per request: in-process key-file state enumeration (OLD+stray temp / NEW x re-issue orders) and real syscall faults / SIGKILL injected with strace in a child process",
+  text="Random signing histories (votes, proposals, regressions, same-HRS variants, reloads). The harness records every released signature (verified with the public key, sign-bytes parsed independently) and re-reads the key file after every call. "
+       "For selected writing requests both file states reachable through WriteFileAtomic are enumerated and continued from; one case in 32 runs a request under strace with 12 fault points (error / SIGKILL at openat, write, close, renameat, unlinkat ...). Held on the histories and crash points enumerated.",
+  note="crash = process death; power loss (rename not yet durable; WriteFileAtomic does not fsync the directory) is out of reach. SignVoteWithoutSave/SignData bypass the record by construction and are diagnostics only (no node code calls them on the consensus path)."),
+ "C11": dict(
+  level="exploration", design="§5 C11", engine="refmodel",
+  technique="type-directed round-trip monitoring over every registered type + hostile-input monitoring of every decoder entry point (panic capture, allocation bound calibrated on valid encodings, sacrificial process for fatal errors)",
+  text="98 target types (49 registered concrete types, 15 interfaces, 34 containers) enumerated from the real registry: generated values must decode equal and re-encode identically at every entry point (incl. the reactors' decodeMsg and the WAL decoder), map insertion order must not matter; "
+       "tree-directed and byte-level hostile inputs must never panic, die or allocate beyond A*len+16MiB. Held on the values and inputs explored.",
+  note="decoder leniency towards non-canonical input is counted, not judged (the property is about encodings produced by the encoder). Four genuine defects found and fixed (known_findings.txt)."),
+ "C12": dict(
+  level="exploration", design="§5 C12", engine="refmodel",
+  technique="single-leaf perturbation monitoring of block identity (reflective perturbator over header/txs/evidence/commit, with and without re-derived hashes) + adversarial part-set schedules against a byte oracle and an independent audit-path rule",
+  text="Generated signed blocks: every single-field perturbation must change the block hash or the part-set hash (or fail ValidateBasic when hashes are not re-derived); receiver-side part sets fed permutations, duplicates, truncated/index-shifted (negative and >= total)/proof-tampered/foreign parts accept only byte-identical parts and reassemble the proposer's bytes. Held on the blocks and schedules explored.",
+  note="no confidential transactions in generated blocks; fields covered only by the part-set hash (Header.Recover, Commit.BlockID) are counted as such, which the property allows."),
+ "C14": dict(
+  level="fault_enumeration", design="§5 C14", engine="core",
+  technique="damage enumeration over logs written through the real baseWAL/autofile group (every truncation offset, every single-byte corruption for small logs, crash images of rotated groups) with a record-sequence oracle and an independent frame parser; marker-search oracle",
+  text="Plans of 3-60 records of all six kinds with rotations (real RotateFile at plan-chosen ticks, with/without Flush) and restarts; plain-reader and real GroupReader lanes; SearchForEndHeight on intact, cut and corrupted groups. "
+       "Decoded messages must be a prefix of what was written, never invented; a marker is found iff completely written. Held on the logs and damages enumerated.",
+  note="corruptions are sampled for logs > 4 KiB (all header bytes + 3 payload bytes per record). Two genuine defects found and fixed (known_findings.txt)."),
+ "C18": dict(
+  level="exploration", design="§5 C18", engine="core",
+  technique="unique-id FIFO/stream-equality monitoring of real SecretConnection/MConnection pairs over throttling pipes under the race detector; independent protocol-level handshake adversary (20 tamper classes)",
+  text="Stream lane: exact byte equality for write/read size menus around frame boundaries. MConnection lane: per-channel delivery must be whole, unaltered, duplicate-free, on the right channel and a linear extension of the Send order (logical clock), nothing lost before a fence. "
+       "Handshake lane: the harness plays the remote side itself; every tampering must be refused and the honest run must succeed with the right remote key. Held on the connections explored.",
+  note="only the compiled-in compress frame mode can be produced through the exported API; MITM relaying without channel binding is a protocol limit, not judged. One genuine defect found and fixed (known_findings.txt)."),
+ "C19": dict(
+  level="exploration", design="§5 C19", engine="refmodel",
+  technique="differential monitoring of the real libs/db backends (memdb, goleveldb, bolt, badger, prefix views) against a reference sorted map after every operation; concurrent atomic-batch-visibility lane (C19R) under the race detector",
+  text="Histories of sets/deletes/batches (write, reset, abandon, reuse)/reopens over hostile key shapes; after every operation lookups and forward/reverse/prefix iterations with bounds are compared with the reference. "
+       "C19R: writers commit batches of unique generations while readers take iterator snapshots; every snapshot must equal the reference after some prefix of the batch order. Held on the histories explored, modulo the listed known findings.",
+  note="six genuine defects fixed; seven recorded as known findings (empty-key writes dropped by bolt/badger, badger batch auto-commit, hash-sharded stores with db_counts>1 are not ordered) - known_findings.txt."),
+ "C09": dict(
+  level="exploration", design="§5 C09", engine="refmodel",
+  technique="recorded-observation and differential-twin monitoring of the real StateDB: random programs with nested snapshot/revert and copies on all four storage backends",
+  text="Random programs (balance, token, nonce, credits, code, storage, create, self-destruct, logs, refunds; nested snapshots; copies and copies of copies) on plain trie, wrapped trie and flat key-value (MemDB / goleveldb) backends. "
+       "Every observable recorded at Snapshot must be restored by RevertToSnapshot; an operation on one state must not change any observable of another; an untouched twin replaying the original's own operations must reach the same roots. Held on the programs explored, modulo the listed known findings.",
+  note="one genuine defect fixed (shared Tokens map); two known findings in the flat key-value mode (pending updates ignored by reads/copies). Root differences with equal observables (S5b) are diagnostics."),
  "C10": dict(
   level="exploration", design="§5 C10", engine="refmodel",
   technique="runtime differential monitoring: real trie executions vs content-map oracle; adversarial proof tampering",
